@@ -5,12 +5,13 @@ package ecdsa
 
 // Textbook ECDSA verification (C01, C16) in the abstract group: with r = x(R),
 //   accept  <=>  r != 0  and  s != 0  and  s^-1 * (m*G + r*X) == R ,   m = fromhash(hash).
+//@ pred ecdsa_valid(R curve.Point, S curve.Scalar, X curve.Point, hash []byte) := xcoord(ptval(R)) != s_zero() && scval(S) != s_zero() && act(s_inv(scval(S)), p_add(act(fromhash(bval(hash)), gen()), act(xcoord(ptval(R)), ptval(X)))) == ptval(R)
 //@ func (Signature).Verify
 //@   nopanic[C05]
 //@   requires sig.R != nil && sig.S != nil && X != nil
 //@   modifies nothing
 //@   allocates
-//@   ensures[C01,C16] result == (xcoord(ptval(sig.R)) != s_zero() && scval(sig.S) != s_zero() && act(s_inv(scval(sig.S)), p_add(act(fromhash(bval(hash)), gen()), act(xcoord(ptval(sig.R)), ptval(X)))) == ptval(sig.R))
+//@   ensures[C01,C16] result == ecdsa_valid(sig.R, sig.S, X, hash)
 //@   ensures[C01,C16] scval(sig.S) == old(scval(sig.S)) && ptval(sig.R) == old(ptval(sig.R)) && ptval(X) == old(ptval(X))
 
 //@ func EmptySignature
@@ -19,3 +20,13 @@ package ecdsa
 //@   modifies nothing
 //@   allocates
 //@   ensures result.R != nil && result.S != nil
+
+// S = sum of the shares, R = the presignature's R (C01): shape only here; the sum itself is the fold below.
+//@ func (*PreSignature).Signature
+//@   requires sig != nil && sig.R != nil && shares != nil
+//@   requires forall(k, party.ID, indom(shares, k) ==> shares[k] != nil)
+//@   modifies nothing
+//@   allocates
+//@   ensures result != nil && fresh(result) && result.R == sig.R && result.S != nil && fresh(result.S)
+//@   ensures ptval(sig.R) == old(ptval(sig.R))
+//@   loop 1: invariant s != nil && fresh(s)
